@@ -57,7 +57,7 @@ HARNESSES = {
                            R + "uref_std.c", R + "umem_alloc.c"]},
     "c13_pump": {"src": [H + "c13_pump.c", E + "vmock_upump.c", R + "upump_common.c", "@REPO@/lib/upump-ev/upump_ev.c"], "libs": ["-lev"]},
     "c11_clock": {"src": [H + "c11_clock.c", R + "umem_alloc.c", R + "udict_inline.c", R + "uref_std.c"]},
-    "c02_cow": {"src": [H + "c02_cow.c", R + "ubuf_block_mem.c", R + "ubuf_mem_common.c", R + "ubuf_mem.c", R + "ubuf_pic_mem.c", R + "ubuf_pic_common.c",
+    "c02_cow": {"src": [H + "c02_cow.c", (R + "ubuf_block_mem.c", ["-Dmalloc=vf_malloc"]), (R + "ubuf_mem_common.c", ["-Dmalloc=vf_malloc"]), R + "ubuf_mem.c", R + "ubuf_pic_mem.c", R + "ubuf_pic_common.c",
                         R + "ubuf_pic.c", R + "ubuf_sound_mem.c", R + "ubuf_sound_common.c", R + "uref_pic_flow.c", R + "udict_inline.c",
                         R + "uref_std.c", R + "umem_alloc.c"]},
     "c10_udict": {"src": [H + "c10_udict.c", R + "udict_inline.c"]},
@@ -285,13 +285,21 @@ def _c02_jobs(tier):
             if pre:
                 a += ["--prefix", pre]
             jobs.append(("c02_cow", a))
+    # environment deviation: one (thorough: two) refused memory request(s) anywhere in the history (umem requests and the libc
+    # allocations of the buffer / shared-area descriptors); an operation that fails for that reason must change nothing
+    for (pp, ap, al, pool) in ((0, 0, 0, 0), (4, 0, 0, 2)):
+        for (pre, d) in starts:
+            a = ["--prepend", pp, "--append", ap, "--align", al, "--pool", pool, "--faults", 1 if q else 2, "--depth", d - 1 if q else d, "--deadline", dl]
+            if pre:
+                a += ["--prefix", pre]
+            jobs.append(("c02_cow", a))
     return jobs
 
 CHECKS["C02"] = {
     "engine": "seqx", "design_ref": "DESIGN.md section 3 C02",
     "technique": "explicit-state BFS over dup/splice/split/insert/append/delete/resize/merge/write-mapping/free sequences on families of real block, picture and sound buffers sharing memory, vs per-handle byte models and an independent owner count",
     "level_text": "All operation sequences up to the stated depth over <=3 block handles, a 4x2 picture and a 4-sample sound (with duplicates and block re-exports of their planes), 3 manager configurations; after every transition every live handle is compared with its model copy, every granted writable mapping is checked against an owner count obtained by walking all live handles, and all live memory areas of the counting allocator are compared before/after every non-write operation. Bounded, not a proof.",
-    "level_note": "Trusted: byte models, direct walk of public struct ubuf_block fields, counting allocator. Outside: more than 3 block handles / 7 segments, deeper sequences, multi-plane pictures.",
+    "level_note": "Trusted: byte models, direct walk of public struct ubuf_block fields, counting allocator. Fault jobs (--faults): once (twice in thorough) per history 'the k-th next memory request is refused' (k=1,2; umem requests and libc allocations of ubuf_block_mem.c / ubuf_mem_common.c) is armed; an operation that fails for that reason must leave every handle as it was. Outside: more than 3 block handles / 7 segments, deeper sequences, multi-plane pictures.",
     "jobs": {"quick": _c02_jobs("quick"), "thorough": _c02_jobs("thorough")},
     "rule": "BFS, key = per handle segments (area index, offset, size) + caches + content, picture/sound sharing; non-trivial = states in which some memory area is referenced by >= 2 segments/handles",
     "bounds": {"quick": "depth 5 from the empty state and depth 4 from each of 5 further start states (block+dup; two blocks; picture+block view; sound+block view; block+dup+picture+dup; segmented block with its offset cache on the 2nd segment), 3 manager configs (prepend,append,align,pool) in {(0,0,0,0),(4,0,0,2),(2,1,4,2)}",
